@@ -5,6 +5,7 @@ encoding the call sequences the checks issue (warm-up calls, fail-fast after col
 their own earlier calls produced."""
 import copy
 import enum
+import sys as _sys
 import importlib
 import types
 
@@ -60,12 +61,29 @@ def snapshot():
 
 def restore():
     """Put every snapshotted container back to its pristine content (in place: identities are preserved)."""
+    try:
+        from crosshair.tracers import NoTracing
+        ctx = NoTracing()
+    except Exception:
+        ctx = None
+    if ctx is not None:
+        try:
+            with ctx:
+                _restore()
+            return
+        except Exception:
+            pass
+    _restore()
+
+
+def _restore():
     for owner, name, obj, saved in snapshot():
         try:
+            if obj == saved:
+                continue                      # untouched (the common case): nothing to do
             if isinstance(obj, dict):
-                if obj != saved or True:
-                    obj.clear()
-                    obj.update(copy.deepcopy(saved) if _deep(saved) else saved)
+                obj.clear()
+                obj.update(copy.deepcopy(saved) if _deep(saved) else saved)
             elif isinstance(obj, list):
                 obj[:] = copy.deepcopy(saved) if _deep(saved) else list(saved)
             elif isinstance(obj, set):
@@ -73,12 +91,9 @@ def restore():
                 obj.update(saved)
         except Exception:
             pass
-    # containers created after the snapshot (e.g. a cache attribute added lazily) cannot exist at module level without
-    # having been created at import; functools caches:
     for mn in MODULES:
-        try:
-            mod = importlib.import_module(mn)
-        except Exception:
+        mod = _sys.modules.get(mn)
+        if mod is None:
             continue
         for val in list(vars(mod).values()):
             cc = getattr(val, "cache_clear", None)
@@ -87,7 +102,7 @@ def restore():
                     cc()
                 except Exception:
                     pass
-            if isinstance(val, type):
+            if isinstance(val, type) and getattr(val, "__module__", None) == mn:
                 for av in list(vars(val).values()):
                     f = av.__func__ if isinstance(av, (staticmethod, classmethod)) else av
                     cc = getattr(f, "cache_clear", None)
